@@ -36,6 +36,8 @@ def run(ctx):
         c07_css.run_css(ctx)          # appends its own rule text, builds and accounts props/C07Css.v itself
     else:
         _css_oracle_only(ctx)
+    import c07_callbacks
+    c07_callbacks.run_callbacks(ctx)  # user output.text / output.field functions, markup and stylesheet (oracle only)
 
 
 def replay(ctx, obj):
@@ -43,6 +45,9 @@ def replay(ctx, obj):
     if rp.get('component') == 'css':
         import c07_css
         return c07_css.replay_css(ctx, obj)
+    if rp.get('component') == 'callbacks':
+        import c07_callbacks
+        return c07_callbacks.replay_callbacks(ctx, obj)
     rc = c07_markup.replay_markup(ctx, obj)
     if rc is not None:
         return rc
